@@ -2,40 +2,28 @@
 
 Two halves:
 * network data (.s1p-.s4p, .ts, .npd): checks/c09_data.py (agent datafiles) - mutation/fuzz harness under
-  ASan/UBSan/LSan plus the Coq tokenizer / scanner models (totality by structural recursion) of
-  coq/Files/TouchstoneTok.v and coq/Files/NpdScan.v, theorems in coq/Properties_C09.v;
+  ASan/UBSan/LSan (exploration only: the byte-level Coq models planned in DESIGN.md were not built);
 * calibration files and YAML property import (.vnacal, vnaproperty_import_yaml_*): module
   checks/c09_cal.py (agent calfile), theorems in coq/Properties_C09cal.v.
 """
 import c09_data
-import c09_ties
 
 
 def run(ctx):
-    ctx.level = "proof"
+    # network-data half: no theorem of this half is finished (the byte-level tokenizer / scanner models of
+    # DESIGN.md C09 were not built), so it is exploration: mutation + sanitizer evidence only
+    ctx.level = "exploration"
     ctx.trusted_base = [
-        "Coq 8.16.1 kernel; no axioms (Print Assumptions: Closed under the global context)",
-        "byte-level models coq/Files/TouchstoneTok.v (next_char/next_token) and coq/Files/NpdScan.v (scan_line), total by "
-        "structural recursion on the input, tied to the compiled functions on generated, mutated and random inputs "
-        "(harness/datafiles_tok.c, harness/datafiles_npdscan.c include the loaders' .c files)",
-        "the parsers above the tokenizer/scanner are not modelled: their totality, error classes and memory safety are "
-        "supported by the mutation harness under ASan/UBSan/LSan and the allocation interposer only",
-        "strtod/strtol are uninterpreted parameters of the tokenizer model",
-        "gcc, ASan/UBSan/LSan, harness/allocwrap.c",
+        "network-data half: no Coq model; totality, error classes and memory safety of the Touchstone / NPD loaders are "
+        "supported only by the mutation harness (checks/c09_data.py) under ASan/UBSan/LSan with the allocation interposer "
+        "harness/allocwrap.c and a 5 s watchdog per library call",
+        "gcc, ASan/UBSan/LSan",
     ]
     ctx.assumptions = ["inputs declaring more than 40 ports or 5000 frequencies are not executed (allocation size), "
                        "except the directed overflow cases"]
     ctx.rule = ("one evaluation = one input file loaded into a fresh and into a used object, dumped, re-saved and re-loaded; "
                 "distinct non-trivial = inputs for which every clause held")
-    broken = []
-    ok, res = ctx.coq_obligations(["Files/TouchstoneTok.v", "Files/TouchstoneTokProofs.v", "Files/NpdScan.v",
-                                   "Files/NpdScanProofs.v", "Properties_C09.v"])
-    if not ok:
-        broken.append("Coq development of C09 (network-data half) does not build: " + getattr(ctx, "_last_coq_log", "")[-400:])
     inputs = c09_data.run(ctx)
-    c09_ties.run(ctx, inputs, broken)
-    for b in broken:
-        ctx.unproved("C09", b, "%d mutated / random inputs" % len(inputs))
     try:
         import c09_cal
     except ImportError:
